@@ -29,6 +29,7 @@ type HSpec struct {
 	Tries     int    // native replay repetitions (map-order counterexamples)
 	Split     int    // >0: partition the path tree at this decision depth across workers
 	InitPerms bool   // permute map ranges inside package initialisers too
+	Witnesses int    // witness paths sampled for the translator self-test (default 4)
 }
 
 // Prop describes the check of one property.
@@ -325,6 +326,13 @@ func mergeStats(dst *engine.Stats, src engine.Stats) {
 	}
 }
 
+func pickW(h HSpec) int {
+	if h.Witnesses > 0 {
+		return h.Witnesses
+	}
+	return 4
+}
+
 func runOne(ctx *runCtx, h HSpec) *hResult {
 	t0 := time.Now()
 	fn := ctx.prog.Func(modPath+h.Dir, h.Fn)
@@ -340,7 +348,7 @@ func runOne(ctx *runCtx, h HSpec) *hResult {
 	if ctx.tier == "thorough" {
 		defTimeout = 120000
 	}
-	cfg := engine.Config{Tier: ctx.tier, MapPerms: h.Perms, MaxStrLen: pick(h.MaxStrLen, ctx.tier, 8), MaxWallS: 420, Witnesses: 4, PermsInInit: h.InitPerms}
+	cfg := engine.Config{Tier: ctx.tier, MapPerms: h.Perms, MaxStrLen: pick(h.MaxStrLen, ctx.tier, 8), MaxWallS: 420, Witnesses: pickW(h), PermsInInit: h.InitPerms}
 	if ctx.tier == "thorough" {
 		cfg.MaxWallS = 5400
 	}
@@ -595,6 +603,7 @@ func writeOverlay(repo, root, pkgDir, dir string, tries int) error {
 	if targetPkg == "" {
 		return fmt.Errorf("no harness files for %s", pkgDir)
 	}
+	repl[filepath.Join(repo, "internal", "zzvfskel", "skel.go")] = filepath.Join(root, "skel", "skel.go")
 	if tries == 0 {
 		tries = 1
 	}
